@@ -153,8 +153,35 @@ func (d *dummyInvoker) InvokeMethod(serviceID, methodID string, strm srpc.Stream
 // provHandler is one running resolver of a provider.
 type provHandler struct {
 	h    directive.ResolverHandler
-	live []uint32
+	live []uint32 // ids of live INVOKER values (the providers the property speaks of)
 	dead bool
+	// foreign: ids of live values that are NOT srpc.Invoker (a resolver may
+	// attach anything to the directive); they are no providers.
+	foreign []uint32
+	// gone: ids that were live once and have been removed (for repeated removal)
+	gone []uint32
+	// lastInv: the invoker object added last (re-added by "add-same")
+	lastInv *dummyInvoker
+}
+
+// notAnInvoker is a value type that does not implement srpc.Invoker.
+type notAnInvoker struct{ n int }
+
+// foreignValue returns a value that is not an srpc.Invoker. k selects the kind.
+func foreignValue(k int) (directive.Value, string) {
+	switch k % 6 {
+	case 0:
+		return "not an rpc service", "string"
+	case 1:
+		return struct{}{}, "empty-struct"
+	case 2:
+		return &notAnInvoker{k}, "pointer"
+	case 3:
+		return k, "int"
+	case 4:
+		return nil, "nil"
+	}
+	return func() {}, "func"
 }
 
 type provider struct {
@@ -243,6 +270,18 @@ func (p *provider) liveCount() int {
 	return n
 }
 
+func (p *provider) foreignCount() int {
+	p.mu.Lock()
+	defer p.mu.Unlock()
+	n := 0
+	for _, h := range p.handlers {
+		if !h.dead {
+			n += len(h.foreign)
+		}
+	}
+	return n
+}
+
 func (p *provider) activeHandlers() int {
 	p.mu.Lock()
 	defer p.mu.Unlock()
@@ -299,7 +338,7 @@ func (p *provider) do(ctx context.Context, b bus.Bus, op string, pick int) strin
 		p.up, p.rel = false, nil
 		for _, h := range p.handlers {
 			h.dead = true
-			h.live = nil
+			h.live, h.foreign = nil, nil
 		}
 		return "down"
 	}
@@ -310,11 +349,60 @@ func (p *provider) do(ctx context.Context, b bus.Bus, op string, pick int) strin
 	switch op {
 	case "add":
 		p.nextVal++
-		if id, ok := h.h.AddValue(bifrost_rpc.LookupRpcServiceValue(&dummyInvoker{p.nextVal})); ok {
+		inv := &dummyInvoker{p.nextVal}
+		if id, ok := h.h.AddValue(bifrost_rpc.LookupRpcServiceValue(inv)); ok {
 			h.live = append(h.live, id)
+			h.lastInv = inv
 			return "add"
 		}
 		return "add-rejected"
+	case "add-same": // the same invoker object once more: a second live provider value
+		if h.lastInv == nil {
+			return "noop"
+		}
+		if id, ok := h.h.AddValue(bifrost_rpc.LookupRpcServiceValue(h.lastInv)); ok {
+			h.live = append(h.live, id)
+			return "add-same"
+		}
+		return "add-rejected"
+	case "fadd": // a value that is no provider
+		p.nextVal++
+		v, kind := foreignValue(p.nextVal + pick)
+		if id, ok := h.h.AddValue(v); ok {
+			h.foreign = append(h.foreign, id)
+			return "fadd-" + kind
+		}
+		return "fadd-rejected"
+	case "fremove":
+		if len(h.foreign) == 0 {
+			return "noop"
+		}
+		k := pick % len(h.foreign)
+		id := h.foreign[k]
+		if _, found := h.h.RemoveValue(id); found {
+			h.foreign = append(h.foreign[:k], h.foreign[k+1:]...)
+			h.gone = append(h.gone, id)
+			return "fremove"
+		}
+		return "fremove-notfound"
+	case "rm-again": // remove an id that has been removed before
+		if len(h.gone) == 0 {
+			return "noop"
+		}
+		if _, found := h.h.RemoveValue(h.gone[pick%len(h.gone)]); found {
+			return "rm-again-FOUND" // the bus handed out an id twice: harness assumption broken
+		}
+		return "rm-again"
+	case "rm-bogus": // remove an id that was never handed out
+		if _, found := h.h.RemoveValue(uint32(1<<30 + pick)); found {
+			return "rm-bogus-FOUND"
+		}
+		return "rm-bogus"
+	case "clear": // the resolver withdraws everything it attached
+		h.h.ClearValues()
+		h.gone = append(append(h.gone, h.live...), h.foreign...)
+		h.live, h.foreign = nil, nil
+		return "clear"
 	case "remove":
 		if len(h.live) == 0 {
 			return "noop"
@@ -323,6 +411,7 @@ func (p *provider) do(ctx context.Context, b bus.Bus, op string, pick int) strin
 		id := h.live[k]
 		if _, found := h.h.RemoveValue(id); found {
 			h.live = append(h.live[:k], h.live[k+1:]...)
+			h.gone = append(h.gone, id)
 			return "remove"
 		}
 		return "remove-notfound"
@@ -380,17 +469,44 @@ func (h *history) String() string {
 // simProv is the generator's own model of a provider (to pick ops that do
 // something).
 type simProv struct {
-	up   bool
-	live int
+	up      bool
+	live    int
+	foreign int
+	// foreignOps: this provider's resolver also attaches / withdraws values that
+	// are not providers and performs odd removals
+	foreignOps bool
 }
 
 func pickOp(rng *rand.Rand, sp *simProv, eager int) string {
 	if !sp.up {
 		if rng.IntN(10) < 8 {
-			sp.up, sp.live = true, eager
+			sp.up, sp.live, sp.foreign = true, eager, 0
 			return "up"
 		}
 		return "add" // addressed to a removed provider: must change nothing
+	}
+	if sp.foreignOps && rng.IntN(100) < 45 {
+		y := rng.IntN(100)
+		switch {
+		case y < 35:
+			sp.foreign++
+			return "fadd"
+		case y < 70 && sp.foreign > 0:
+			sp.foreign--
+			return "fremove"
+		case y < 78:
+			return "rm-again"
+		case y < 84:
+			return "rm-bogus"
+		case y < 92 && sp.live > 0:
+			sp.live++
+			return "add-same"
+		case y < 96:
+			sp.live, sp.foreign = 0, 0
+			return "clear"
+		}
+		sp.foreign++
+		return "fadd"
 	}
 	x := rng.IntN(100)
 	switch {
@@ -405,7 +521,7 @@ func pickOp(rng *rand.Rand, sp *simProv, eager int) string {
 	case x < 85:
 		return "busy"
 	case x < 97:
-		sp.up, sp.live = false, 0
+		sp.up, sp.live, sp.foreign = false, 0, 0
 		return "down"
 	}
 	return "remove"
@@ -418,7 +534,7 @@ func genHistory(rng *rand.Rand) *history {
 		h.up = append(h.up, rng.IntN(10) < 7)
 		h.eagerVals = append(h.eagerVals, []int{0, 0, 1, 1, 2}[rng.IntN(5)])
 		h.eagerIdle = append(h.eagerIdle, rng.IntN(2) == 0)
-		sim[i] = &simProv{up: h.up[i]}
+		sim[i] = &simProv{up: h.up[i], foreignOps: rng.IntN(2) == 0}
 		if h.up[i] {
 			sim[i].live = h.eagerVals[i]
 		}
@@ -590,6 +706,11 @@ func runHistory(r *vf.Run, h *history, idx int) (nontrivial bool, obsSig string)
 			live += p.liveCount()
 		}
 		w["live_provider_values"] = live
+		nf := 0
+		for _, p := range provs {
+			nf += p.foreignCount()
+		}
+		w["live_values_that_are_no_providers"] = nf
 		obs.mu.Lock()
 		w["directive_idle_observed"] = obs.idle
 		obs.mu.Unlock()
@@ -784,7 +905,7 @@ func runHistory(r *vf.Run, h *history, idx int) (nontrivial bool, obsSig string)
 func TestCheck(t *testing.T) {
 	r := vf.Start(t, "C36", vf.Exploration)
 	defer r.Finish()
-	r.SetRule("histories from a PRNG: 0-3 harness provider controllers on a real in-memory bus (initially up or down, eager start-up values 0-2, eager idle), 3-12 steps drawn from {single op, concurrent burst of 0-4 ops per provider, close/open the stream's Send gate, start a second lookup stream, checkpoint}; ops = add value, remove value, mark idle, mark busy, remove the provider controller, add it again. The real AccessRpcServiceServer.LookupRpcService runs against a recording harness stream. Oracle per stream: Exists/Removed strictly alternate starting with Exists; idle reports never repeat a value; at every checkpoint (all harness goroutines joined, every bus/server goroutine parked in two+ consecutive stack snapshots with unchanged counters, gate open) last availability report = Exists <=> the harness' own count of live provider values > 0, and last idle report = the directive's idle state seen by an independent idle callback; after cancelling the stream the call returns. A history is non-trivial when at least one report was sent; distinct = distinct history script. Plus: MarshalComponentID/UnmarshalComponentID round trip of many requests in one process: PRNG (service, server) strings and structured families of confusable requests - boundary-shifted pairs over every ASCII character (NUL included) and some multi-byte strings as separator (service+sep+server resp. server+sep+service coincide, separator at the boundary, doubled separator, empty server id), swapped pairs, pairs sharing one field, pairs sharing a long prefix; all interleaved in a PRNG order, then every request once more from 8 goroutines in another order; each decoded result must equal its own request and one component id must never be issued for two different requests; no panic on arbitrary component ids.")
+	r.SetRule("histories from a PRNG: 0-3 harness provider controllers on a real in-memory bus (initially up or down, eager start-up values 0-2, eager idle), 3-12 steps drawn from {single op, concurrent burst of 0-4 ops per provider, close/open the stream's Send gate, start a second lookup stream, checkpoint}; ops = add value, remove value, mark idle, mark busy, remove the provider controller, add it again; half of the providers additionally perform FOREIGN operations on the same directive: attach a value that is not an srpc.Invoker (string, struct, pointer, int, nil, func), withdraw such a value, remove an id that was removed before, remove an id that was never handed out, attach the same invoker object a second time, ClearValues. Ground truth = the harness' own count of live INVOKER values only. The real AccessRpcServiceServer.LookupRpcService runs against a recording harness stream. Oracle per stream: Exists/Removed strictly alternate starting with Exists; idle reports never repeat a value; at every checkpoint (all harness goroutines joined, every bus/server goroutine parked in two+ consecutive stack snapshots with unchanged counters, gate open) last availability report = Exists <=> the harness' own count of live provider values > 0, and last idle report = the directive's idle state seen by an independent idle callback; after cancelling the stream the call returns. A history is non-trivial when at least one report was sent; distinct = distinct history script. Plus: MarshalComponentID/UnmarshalComponentID round trip of many requests in one process: PRNG (service, server) strings and structured families of confusable requests - boundary-shifted pairs over every ASCII character (NUL included) and some multi-byte strings as separator (service+sep+server resp. server+sep+service coincide, separator at the boundary, doubled separator, empty server id), swapped pairs, pairs sharing one field, pairs sharing a long prefix; all interleaved in a PRNG order, then every request once more from 8 goroutines in another order; each decoded result must equal its own request and one component id must never be issued for two different requests; no panic on arbitrary component ids.")
 	r.Assume("controllerbus delivers value added/removed and idle callbacks of one directive instance in order (its per-instance callback queue); the provider controllers and the idle observer are harness code")
 	r.Assume("quiescence = every goroutine whose stack mentions rpc/access, controllerbus or a harness provider is parked (select / chan receive / chan send / cond wait) in 3 consecutive dumps with no harness counter change; watchdog expiry is inconclusive, never a verdict")
 
